@@ -4,5 +4,6 @@ let machines : (string * Base.machine) list = [
   "mutex", Mutex.machine;
   "semaphore", SemaphoreSpec.machine;
   "mpmc", MpmcSpec.machine;
-  "oneshot", Oneshot.machine;
+  "oneshot", OneshotSpec.machine;
+  "state", StateBcastSpec.machine;
 ]
